@@ -4,6 +4,8 @@ import Rare.Proofs.C09Utf8Char
 import Rare.Proofs.C09FuelStd
 import Rare.Proofs.C09Frag
 import Rare.Proofs.C09Lookup
+import Rare.Proofs.C09Gen
+import Rare.Proofs.C09Err
 import Rare.Gen.Tables
 /-!
 Property C09 – template syntax: literals, escapes, quotes and nesting parse as documented.
@@ -185,6 +187,24 @@ theorem fragment_names :
   refine ⟨h, ?_, fun p hp => (fragTable_ok p hp).2⟩
   rw [h]; decide
 
+/-- **The complement, by name**: the 20 names of the real function table (`Gen.stdFunctionNames`, 85 names,
+    regenerated from `/repo`) that `print_compile_std_fragment` does NOT speak about, and why:
+    `@map @filter @reduce @for` evaluate an argument in a sub-context (the tree semantics `evalTree` has no
+    binder; their round trip is C10's `call_nested_eq_body` / C17's element-wise theorems); `!` parses its
+    arguments with the `sifter` grammar of C19 instead of compiling them; `ln log10 log2 pow` are libm-backed
+    (no bit-exact model: `unmodelled` in the correspondence); `time timeformat timeattr buckettime duration
+    durationformat` depend on the process's time zone / clock or on Go's layout detection (modelled relative to
+    a world in C18, not a function of the argument values alone); `format` (Go's `fmt` verbs), `json` (gjson
+    paths), `load` (file system), `bar` / `color` (terminal state: colours on or off) are functions of a world,
+    not of their argument values.  A name added to or removed from rare's table changes `Gen.stdFunctionNames`
+    and breaks this theorem until the fragment is re-stated. -/
+theorem fragment_complement :
+    Gen.stdFunctionNames.filter (fun n => !fragNames.contains n) =
+      ["!", "@filter", "@for", "@map", "@reduce", "bar", "buckettime", "color", "duration", "durationformat",
+       "format", "json", "ln", "load", "log10", "log2", "pow", "time", "timeattr", "timeformat"] ∧
+    Gen.stdFunctionNames.length = 85 ∧ fragNames.length = 65 ∧ fragNames.Nodup := by
+  refine ⟨by decide +kernel, by decide +kernel, by decide +kernel, by decide +kernel⟩
+
 /-- The round trip for registries of syntactically pure builders (`pureBuilder`, the harness's probe
     registry) with the optimiser off – the statement proved before the composition with C10; now a
     special case of `print_compile`. -/
@@ -267,6 +287,108 @@ theorem lone_integer_is_regex_group (reg : Registry) (opt : Bool) (lead trail : 
   have := hctx n hr
   rw [C02.getMatch_eq_spec line indices n hwf hlen hr] at this
   exact this.symm
+
+/-- **The look-up itself, not just its value**: evaluated against the recording context (`runLog`: every
+    `GetMatch(i)` / `GetKey(k)` is logged – the correspondence op `look` observes exactly this on the real code), a
+    lone argument performs exactly ONE look-up: `GetMatch(v)` with the literal's value when it is an integer
+    literal (negative values and `±0` included), `GetKey` of the argument's bytes otherwise. -/
+theorem lone_argument_one_lookup (reg : Registry) (opt : Bool) (body a : List Char) (hi : Inner body)
+    (hs : splitArgs body = [a]) :
+    ∃ st, compile reg opt ('{' :: (body ++ ['}'])) = .ok ([st], []) ∧
+      ((∃ v, IntLit (utf8 a) v ∧ runLog (buildKey [st]) [] = .ok (lookAnswer (.m v), [Look.m v])) ∨
+       ((∀ v, ¬ IntLit (utf8 a) v) ∧ runLog (buildKey [st]) [] = .ok (lookAnswer (.k (utf8 a)), [Look.k (utf8 a)]))) := by
+  refine ⟨stageSimpleVariable a, compileF_lone _ reg opt hi a hs, ?_⟩
+  rw [runLog_simpleVariable]
+  cases h : atoi (utf8 a) with
+  | some v => exact Or.inl ⟨v, intLit_of_atoi h, rfl⟩
+  | none => exact Or.inr ⟨(atoi_none_iff _).mp h, rfl⟩
+
+/-! ### The tokenizer state machines are the source's (translator tie) -/
+
+/-- **`splitTokenizedArguments`, statement by statement.**  `Gen.C09.step` / `init` / `finish` are regenerated from
+    the Go AST of `argSplitter.go` on every run (every condition of the if / else-if chain in order, every
+    statement of every branch in order, the declarations before the loop and the flush after it; only
+    `unicode.IsSpace` is a parameter).  The hand model's `splitStep` is that function on the record of the Go
+    locals, and `splitArgs` is the generated `split` – for ALL states, runes and inputs.  Any changed condition,
+    constant, statement or branch order in the Go function breaks this theorem. -/
+theorem splitter_matches_source :
+    (∀ (s : SplitSt) (r : Char), toGen (splitStep s r) = Gen.C09.step isSpaceRune (toGen s) r) ∧
+    toGen SplitSt.init = Gen.C09.init ∧
+    (∀ t : List Char, splitArgs t = Gen.C09.split isSpaceRune t) :=
+  ⟨splitStep_gen, rfl, splitArgs_gen⟩
+
+/-- **`Compile`'s rune loop dispatches as the source's conditions say.**  `Gen.C09.scanConds r i n inStatement` are
+    the conditions of the loop's if / else-if chain translated from keyBuilder.go (`r == '\\' && i+1 < len(runes)`,
+    `r == '{'`, `r == '}' && inStatement > 0`); for every rune, position, rest of the input and scanner state the
+    model's `compileLoop` takes the branch of the FIRST condition that holds (the final `else` when none does):
+    escape (consuming the next rune through the generated `unescape` table), open, close, copy. -/
+theorem scanner_matches_source (fuel : Nat) (reg : Registry) (opt : Bool) (all : List Char)
+    (r : Char) (rest : List Char) (i : Nat) (st : CompSt) :
+    compileLoop fuel reg opt all (r :: rest) i st =
+      match firstTrue (Gen.C09.scanConds r i (i + 1 + rest.length) st.inStatement), rest with
+      | 0, e :: rest' => compileLoop fuel reg opt all rest' (i + 2) { st with sb := st.sb ++ [Gen.C09.unescape e] }
+      | 0, [] => .ok st
+      | 1, _ =>
+        if st.inStatement = 0 then
+          compileLoop fuel reg opt all rest (i + 1)
+            { st with stages := if st.sb.isEmpty then st.stages else st.stages ++ [Stage.lit (charsToBytes st.sb)],
+                      sb := [], startStatement := i, inStatement := 1 }
+        else compileLoop fuel reg opt all rest (i + 1) { st with sb := st.sb ++ ['{'], inStatement := st.inStatement + 1 }
+      | 2, _ =>
+        if st.inStatement = 1 then
+          match closeStatement fuel reg opt all i st with
+          | .error m => .error m
+          | .ok st' => compileLoop fuel reg opt all rest (i + 1) { st' with sb := [], inStatement := 0 }
+        else compileLoop fuel reg opt all rest (i + 1) { st with sb := st.sb ++ ['}'], inStatement := st.inStatement - 1 }
+      | _, _ => compileLoop fuel reg opt all rest (i + 1) { st with sb := st.sb ++ [r] } :=
+  scanner_gen fuel reg opt all r rest i st
+
+/-- `unescape` is the source's switch table (`\n \r \t`; every other rune stands for itself), and the rest of the
+    parser's skeleton is what the model mirrors: the loop header, the counter statement of each branch (`i++` in
+    the escape branch only), the `len(args)` tests when a statement closes (0 → empty statement, 1 → lone word,
+    else call), the four post-loop guards, and `stageSimpleVariable` = `strconv.Atoi` (decimal, no base
+    detection) → `GetKey(s)` on failure, `GetMatch(index)` on success. -/
+theorem parser_skeleton_matches_source :
+    (∀ c, unescape c = Gen.C09.unescape c) ∧
+    Gen.C09.unescapeTable = [('n', '\n'), ('r', '\r'), ('t', '\t')] ∧
+    Gen.C09.scanLoop = "i := 0; i < len(runes); i++" ∧
+    Gen.C09.scanCounters = [["i++"], ["inStatement++"], ["inStatement--"], []] ∧
+    (∀ args : List (List Char), Gen.C09.argConds args.length = [args.isEmpty, decide (args.length = 1)]) ∧
+    Gen.C09.postConds = ["inStatement != 0", "sb.Len() > 0", "s.autoOptimize", "!errs.empty()"] ∧
+    Gen.C09.simpleVariable = ["strconv.Atoi(s)", "err != nil", "context.GetKey(s)", "context.GetMatch(index)"] :=
+  ⟨unescape_gen, by decide, by decide, by decide, argConds_gen, by decide, by decide⟩
+
+/-! ### errors.go: what the user sees -/
+
+/-- The texts of the model's error rendering are the source's: the three sentinel messages, the format of
+    `DetailedError.Error()` and its arguments, the single-error shortcut and the pieces of the multi-error text. -/
+theorem error_texts_match_source :
+    msgUnterminated = Gen.C09.msgUnterminated ∧ msgEmptyStatement = Gen.C09.msgEmptyStatement ∧
+    msgMissingFunction = Gen.C09.msgMissingFunction ∧
+    Gen.C09.detailedFormat = "At `%s` (%d): %v" ∧ Gen.C09.detailedArgs = ["s.Context", "s.Index", "s.Err"] ∧
+    Gen.C09.multiShortcut = "len(s.Errors) == 1" ∧
+    Gen.C09.multiPieces = ["Compiler Errors in: `", "<s.Expression>", "`\n", "  ", "<e.Error()>", "\n"] := by
+  refine ⟨by decide, by decide, by decide, by decide, by decide, by decide, by decide⟩
+
+/-- **Every recorded error is shown to the user**: the text `Compile`'s error value renders (`CompilerErrors.Error()`,
+    what `rare` prints) contains, for EVERY recorded error, its full line ``At `<context>` (<index>): <message>`` –
+    whether there is one error (the text is exactly that line) or several (header with the whole expression, one
+    indented line each); `Compile` returns a nil error exactly when nothing was recorded; and `errors.Is` finds a
+    sentinel exactly when an error of that kind was recorded. -/
+theorem errors_are_shown (funcMsg : String → String) (expr : Bytes) (errs : List CErr) :
+    (compileError funcMsg expr errs = none ↔ errs = []) ∧
+    (∀ e, errs = [e] → compileError funcMsg expr errs = some (detailedError funcMsg e)) ∧
+    (∀ e ∈ errs, ∃ msg, compileError funcMsg expr errs = some msg ∧ detailedError funcMsg e <:+: msg) ∧
+    (∀ k, errorsIs errs k = true ↔ ∃ e ∈ errs, e.kind = k) := by
+  refine ⟨?_, ?_, ?_, ?_⟩
+  · unfold compileError; cases errs <;> simp
+  · rintro e rfl; rfl
+  · intro e he
+    refine ⟨compilerErrorsError funcMsg expr errs, ?_, detailed_infix funcMsg expr errs e he⟩
+    unfold compileError; cases errs with
+    | nil => cases he
+    | cons _ _ => rfl
+  · intro k; simp [errorsIs]
 
 /-! ### UTF-8: from Go strings to rune lists and back -/
 
@@ -470,5 +592,13 @@ example : C02.WF (ascii "ab cd") [1, 4, 3, 4] ∧ C02.specGroup (ascii "ab cd") 
   rcases this with rfl | rfl <;> decide +kernel
 example : splitArgs "{0}".toList = ["{0}".toList] ∧ Inner "{0}".toList :=
   ⟨by decide, Inner.braces ['0'] [] (Inner.char '0' _ (by decide) Inner.nil) Inner.nil⟩
+
+/-- what the user reads for `ab{}` and for `{nofn x}{`: one error → the bare line, two → header + indented lines -/
+example : compileError (fun t => t) (ascii "ab{}") [⟨.emptyStatement, "{}".toList, 2⟩] =
+    some (ascii "At `{}` (2): empty statement in expression") := by decide +kernel
+example : compileError (fun t => t) (ascii "{nofn x}{")
+      [⟨.missingFunction, "nofn x".toList, 0⟩, ⟨.unterminated, "{".toList, 8⟩] =
+    some (ascii "Compiler Errors in: `{nofn x}{`\n  At `nofn x` (0): missing function\n  At `{` (8): non-terminated statement in expression\n") := by
+  decide +kernel
 
 end Rare.C09
